@@ -3,6 +3,8 @@
 open BinNums
 open Vx
 open C05Model
+open C05FragModel
+open C05CodecModel
 
 let hexn s = n_of_hex s
 let hn n = hex_of_n n
@@ -38,7 +40,7 @@ let parse_trex (track : coq_N) (s : string) : trex option =
 (* ---- O cases *)
 let case_o id opt tfs trs smps txs obs =
   let tf = match split_on '.' tfs with
-    | [f; d; z; g] -> { tf_flags = hexn f; tf_track = n_of_int 1; tf_bdo = N0; tf_sdi = n_of_int 1;
+    | [f; d; z; g; tk] -> { tf_flags = hexn f; tf_track = hexn tk; tf_bdo = N0; tf_sdi = n_of_int 1;
                         tf_ddur = hexn d; tf_dsize = hexn z; tf_dflags = hexn g }
     | _ -> failwith "bad tfhd" in
   let tr = match split_on '.' trs with
@@ -56,13 +58,14 @@ let case_o id opt tfs trs smps txs obs =
       let w = wire_trun tr' in
       let rs = resolve tf' tx w in
       let rm = resolve tf' tx tr' in
-      S.concat "|" [ "o"; tf_string tf'; tr_string tr'; tr_string w; samples_string w.tr_samples;
+      let tr100 = { tr' with tr_doff = z_of_int 100 } in
+      let tb = match enc_trun tr100 with Base.Ok b -> hex_of_bytes b | _ -> "panic" in
+      S.concat "|" [ "o"; tf_string tf'; tr_string tr'; hex_of_bytes (enc_tfhd tf'); tb; tr_string w; samples_string w.tr_samples;
                      samples_string rs; hn (total_dur rs); samples_string rm; hn (total_dur rm) ] in
   if m = obs then Printf.printf "OK %s\n" id else Printf.printf "MISMATCH %s model=%s\n" id m
 
 
 (* ---- H cases *)
-open C05FragModel
 
 let kv (cfg : string) : (string * string) list =
   L.map (fun f -> match S.index_opt f '=' with
@@ -150,10 +153,30 @@ let case_h id cfg opss obs =
   let m = Buffer.contents b in
   if m = obs then Printf.printf "OK %s\n" id else Printf.printf "MISMATCH %s model=%s\n" id m
 
+(* ---- D cases: box decoders *)
+let rec drop n l = if n = 0 then l else match l with [] -> [] | _ :: t -> drop (n - 1) t
+let rec take n l = if n = 0 then [] else match l with [] -> [] | x :: t -> x :: take (n - 1) t
+
+let case_d id kind boxhex obs =
+  let b = bytes_of_hex boxhex in
+  let size = match rd32 b with Some (sz, _) -> sz | None -> N0 in
+  let body = drop 8 b in
+  let m =
+    if kind = "trun" then
+      (match dec_trun size body with
+       | Base.Ok t -> "o|" ^ hn t.tr_version ^ "." ^ hn t.tr_flags ^ "." ^ hn t.tr_fsf ^ "." ^ hz t.tr_doff ^ "|" ^ samples_string t.tr_samples
+       | Base.Err -> "e" | Base.Panic -> "p" | Base.OutOfFuel -> "fuel")
+    else
+      (match dec_tfhd body with
+       | Base.Ok h -> "o|" ^ hn h.tf_flags ^ "." ^ hn h.tf_track ^ "." ^ hn h.tf_bdo ^ "." ^ hn h.tf_sdi ^ "." ^ hn h.tf_ddur ^ "." ^ hn h.tf_dsize ^ "." ^ hn h.tf_dflags
+       | Base.Err -> "e" | Base.Panic -> "p" | Base.OutOfFuel -> "fuel") in
+  if m = obs then Printf.printf "OK %s\n" id else Printf.printf "MISMATCH %s model=%s\n" id m
+
 let () =
   iter_lines (fun line ->
       match split_on '\t' line with
       | ["O"; id; opt; tfs; trs; smps; txs; obs] -> case_o id opt tfs trs smps txs obs
       | ["H"; id; cfg; ops; obs] -> case_h id cfg ops obs
+      | ["D"; id; kind; boxhex; obs] -> case_d id kind boxhex obs
       | "STAT" :: _ -> ()
       | _ -> Printf.printf "BADLINE %s\n" (if S.length line > 80 then S.sub line 0 80 else line))
